@@ -23,10 +23,11 @@ LEVEL_TEXT = ('Unbounded Lean theorems: (0) ALL SIZES of the hand-modelled surfa
               'lattice size; RotatedToric3DCode (Lx,Ly>=2 not both odd, Lz>=1): IsDistance n H d and code.d = d with d = min Lx Ly '
               '(even x even, k=2), min Ly (Lx*Lz) (odd Lx: defect line, logical Z a wall of Y letters), min Lx (Ly*Lz) (odd Ly) - '
               'packing in the sign picture of the C01 proof, which treats the mixed X/Z generators of the defect lines uniformly; '
-              'HollowPlanar3DCode (Lx,Ly,Lz>=1): the TRUE distance min Lx wZ (wZ = x edges of a cross-section '
-              'through the cavity = Ly*Lz - [Lx>=3](Ly-2)(Lz-2)) for every size, code.d = min Lx (Ly*Lz) for every size, equal '
-              'when Lx<=2 or Ly<=2 or Lz<=2 or Lx<=2Ly+2Lz-4 and PROVED DIFFERENT otherwise (reported_distance_wrong: known '
-              'finding, smallest size (9,3,3): d reported 9, true 8) - upper bound: a listed logical; lower bound: packing with lattice translates (consecutive '
+              'HollowPlanar3DCode (Lx,Ly,Lz>=1): IsDistance n H (min Lx wZ) and code.d = min Lx wZ (wZ = x edges of a cross-section '
+              'through the cavity = Ly*Lz - [Lx>=3](Ly-2)(Lz-2), the weight of the listed logical Z since the repair of '
+              'get_logicals_z) for every size; regression theorems about the logical Z listed before the repair (the full end '
+              'plane x = 1): code.d was min Lx (Ly*Lz), PROVED DIFFERENT from the distance when Ly,Lz>=3 and Lx>2Ly+2Lz-4 '
+              '(old_reported_distance_wrong: former finding, smallest size (9,3,3): d reported 9, true 8) - upper bound: a listed logical; lower bound: packing with lattice translates (consecutive '
               'translates of a logical line differ by the row of generators between them, consecutive translates of a logical '
               'plane by the slab of vertex generators between them, so any operator commuting with all generators meets every '
               'translate; X-cube: Z lines are rigid, a line is equivalent to the product of three lines through the other '
@@ -398,7 +399,8 @@ HOLLOW_MEMBRANE_SIZES_DEEP = [(10, 3, 3), (11, 3, 4), (10, 3, 4), (9, 4, 3), (7,
 
 def hollow_membrane_case(size):
     """Z on the x edges (3, y, z) of HollowPlanar3DCode(size): a failure iff it is a non-trivial logical
-    operator lighter than the reported d"""
+    operator lighter than the reported d (regression corpus of the repaired finding: no failure on the
+    repaired tree, where this operator is the listed logical Z)"""
     cls = 'HollowPlanar3DCode'
     try:
         inst = live(cls, tuple(size), (None, {}))
@@ -493,10 +495,12 @@ def oracle(ctx, deep=False, broken=None):
             errs += 1
         if f is not None:
             fails.append(f)
-    # directed family (theorem C17HollowPlanar3DCode.distance): the Z membrane through the cavity of
-    # HollowPlanar3DCode, i.e. Z on the existing x edges of the cross-section x = 3.  It is a non-trivial
-    # logical of weight Ly*Lz - (Ly-2)(Lz-2); code.d = min(Lx, Ly*Lz) exceeds it iff Ly, Lz >= 3 and
-    # Lx > 2Ly + 2Lz - 4 (known finding, smallest size (9,3,3)).  Appended after the generic cases so that a
+    # directed family (theorem C17HollowPlanar3DCode.distance), kept as a regression corpus: the Z membrane
+    # through the cavity of HollowPlanar3DCode, i.e. Z on the existing x edges of the cross-section x = 3.  It
+    # is a non-trivial logical of weight Ly*Lz - (Ly-2)(Lz-2).  Before the repair of get_logicals_z (former
+    # finding, now kind 'fixed' in known_findings.json) code.d = min(Lx, Ly*Lz) exceeded it iff Ly, Lz >= 3
+    # and Lx > 2Ly + 2Lz - 4 (smallest size (9,3,3)); since the repair it is the listed logical Z, so its
+    # weight is never below code.d and the family must pass.  Appended after the generic cases so that a
     # generic failure of the class at a small size is the one that is kept per class.
     n_dir = 0
     for size in HOLLOW_MEMBRANE_SIZES + (HOLLOW_MEMBRANE_SIZES_DEEP if deep else []):
